@@ -74,6 +74,12 @@ def context_specs():
     # both disabled hashers
     out.append({"name": "unix+django", "schemes": ["sha256_crypt", "unix_disabled", "django_disabled"], "marker": None})
     out.append({"name": "django+unix", "schemes": ["sha256_crypt", "django_disabled", "unix_disabled"], "marker": None})
+    # deprecation policies that cover the disabled hasher itself (deprecated='auto' marks every scheme but the default --
+    # the shipped django contexts do; an explicit list may name it): disabling is not "hashing with a deprecated scheme"
+    for d in DISABLED:
+        out.append({"name": f"{d}:deprecated=auto", "schemes": real + [d], "marker": None, "ctxkw": {"deprecated": "auto"}})
+        out.append({"name": f"{d}:deprecated=itself", "schemes": real + [d], "marker": None, "ctxkw": {"deprecated": [d, "md5_crypt"]}})
+        out.append({"name": f"{d}:deprecated=auto_by_update", "schemes": real + [d], "marker": None, "ctxkw": {"deprecated": "auto"}, "late": True})
     # a scheme that needs a context keyword (user=) next to the disabled hasher: the login code cannot know whether the
     # stored value is a hash or a marker, so it passes user= on EVERY call; built directly and derived (copy / update /
     # load) from a configuration that had no such scheme
@@ -128,7 +134,11 @@ def make_context(spec):
             return base
         base.load(dict(kw, schemes=list(spec["schemes"])))
         return base
-    return CryptContext(schemes=list(spec["schemes"]), **kw)
+    if spec.get("late"):
+        c = CryptContext(schemes=list(spec["schemes"]), **kw)
+        c.update(**spec["ctxkw"])
+        return c
+    return CryptContext(schemes=list(spec["schemes"]), **kw, **(spec.get("ctxkw") or {}))
 
 
 def first_disabled(spec):
